@@ -165,3 +165,99 @@ def segs_equal(a, b, facts=()):
 def ctor_of(facts, ty, name='new'):
     fs = fns_of(facts, ty)
     return fs.get(name)
+
+# ---------------------------------------------------------------- private-field invariants
+
+_INV_CACHE = {}
+def field_invariants(facts):
+    """{type: {field: (lo, hi)}}: ranges that every public constructor establishes for a private scalar field
+    which no other function writes (a trivially inductive type invariant, e.g. PCI device < 32)."""
+    key = id(facts)
+    if key in _INV_CACHE: return _INV_CACHE[key]
+    out = {}
+    for path, adt in facts.adts.items():
+        if adt['kind'] != 'Struct' or adt.get('generic'): continue
+        fields = adt['variants'][0]['fields']
+        if not fields or any(fd['vis'] == 'pub' for fd in fields): continue
+        fs = fns_of(facts, path)
+        ctors = [b for b in fs.values() if classify(b, path) == 'ctor']
+        if not ctors or any(not is_pub(b) and False for b in ctors): continue
+        # other writers of the fields
+        writers = set()
+        for d, b in facts.bodies.items():
+            if b.get('body') is None: continue
+            if _assigns_field_of(b['body'], path): writers.add(d)
+        if writers - {b['def'] for b in ctors}: continue
+        hull = None
+        for b in ctors:
+            I = new_interp(facts)
+            try:
+                st = run_fn(I, b['def'], sym_args(I, b))
+            except Exception:
+                hull = None; break
+            if I.tops or not isinstance(st, StructV): hull = None; break
+            cur = {}
+            for fd in fields:
+                v = st.fields.get(fd['name'])
+                if is_term(v):
+                    sym.CTX = I.st.ranges
+                    lo, hi = rng(v)
+                    sym.CTX = {}
+                    cur[fd['name']] = (lo, hi)
+            hull = cur if hull is None else {k: (min(hull[k][0], cur[k][0]), max(hull[k][1], cur[k][1])) for k in hull if k in cur}
+        # struct literals outside the constructors would bypass the assertions
+        if hull:
+            sites = set()
+            for d, b in facts.bodies.items():
+                if b.get('body') is not None and _has_adt_literal(b['body'], path): sites.add(d)
+            if sites - {b['def'] for b in ctors}: continue
+            out[path] = hull
+    _INV_CACHE[key] = out
+    return out
+
+def _assigns_field_of(e, ty):
+    found = [False]
+    def walk(x):
+        if isinstance(x, dict):
+            if x.get('k') in ('Assign', 'AssignOp'):
+                l = x['lhs']
+                while l.get('k') in ('Field', 'Index', 'Deref'):
+                    if l.get('k') == 'Field' and norm_ty(strip_refs(l['lhs'].get('ty', ''))) == ty: found[0] = True
+                    l = l.get('lhs') or l.get('arg')
+            for v in x.values(): walk(v)
+        elif isinstance(x, list):
+            for v in x: walk(v)
+    walk(e); return found[0]
+
+def _has_adt_literal(e, ty):
+    found = [False]
+    def walk(x):
+        if isinstance(x, dict):
+            if x.get('k') == 'Adt' and x.get('adt') == ty: found[0] = True
+            for v in x.values(): walk(v)
+        elif isinstance(x, list):
+            for v in x: walk(v)
+    walk(e); return found[0]
+
+def apply_invariants(I, v, inv, seen=None):
+    """install the type invariants of every struct value reachable from v as range facts of interpreter I"""
+    if seen is None: seen = set()
+    if id(v) in seen: return
+    seen.add(id(v))
+    if isinstance(v, RefV): return apply_invariants(I, v.place.get(), inv, seen)
+    if isinstance(v, StructV):
+        rs = inv.get(v.path)
+        for k, x in v.fields.items():
+            if rs and k in rs and is_term(x) and x[0] == 'a':
+                old = sym.ATOM_RANGE.get(x[1], (0, sym.BIG))
+                I.st.ranges[x] = (max(old[0], rs[k][0]), min(old[1], rs[k][1]))
+            apply_invariants(I, x, inv, seen)
+    elif isinstance(v, EnumV):
+        if v.variant is None and v.path == 'core::option::Option':
+            apply_invariants(I, I.enum_payload(v, 'Some', '0'), inv, seen)
+        for x in v.fields.values(): apply_invariants(I, x, inv, seen)
+    elif isinstance(v, SeqV) and not v.is_bytes():
+        for s in v.segs:
+            if s[0] == 'elem': apply_invariants(I, s[1], inv, seen)
+    elif isinstance(v, TupleV):
+        for x in v.items: apply_invariants(I, x, inv, seen)
